@@ -51,6 +51,8 @@ inductive Val
   | cons (k : String) (v r : Val)       -- tuple or scope extension
   | clo (env : Val) (x : String) (b : Ast)
   | nat (names : List String) (cap : Cap) (held : Val)  -- names of this and the later partial applications
+  | thunk (env : Val) (e : Ast)         -- rel.ExprClosure: an expression to be evaluated in `env` when looked up
+                                        -- (what the parser's `bind` hook puts in the parse-time scope)
 end
 
 instance : Inhabited Ast := ⟨.tnil⟩
@@ -102,6 +104,7 @@ def Val.reach : Val → List Cap
   | .cons _ v r => v.reach ++ r.reach
   | .clo env _ b => env.reach ++ b.reach ++ (if env.hasLib || b.noPkg then [] else allCaps)
   | .nat _ c held => capClosure c ++ held.reach
+  | .thunk env e => env.reach ++ e.reach ++ (if env.hasLib || e.noPkg then [] else allCaps)
 def Ast.reach : Ast → List Cap
   | .lit v => v.reach
   | .quote a => a.reach
@@ -124,6 +127,7 @@ def scopeCaps (s : Val) (e : Ast) : List Cap :=
 function on arguments it may reject, …): the case generator discards programs that log it. -/
 inductive Eff
   | did (cap : Cap) (arg : String)
+  | imported (file : String)     -- the importer opened this file while compiling (import syntax)
   | unmodelled
   deriving Repr
 
@@ -137,15 +141,18 @@ structure Fixes where
   importLib : Bool      -- imported code sees the importer's library
   importReject : Bool   -- import syntax is rejected in sandboxed evaluation
   valueEmpty : Bool     -- //eval.value evaluates with an empty library and scope
-  dynBarrier : Bool     -- NOT in the tree: the sandbox does not see the caller's dynamic variables `@{x}`
+  dynBarrier : Bool     -- the sandbox does not see the caller's dynamic variables `@{x}`
 
-/-- every repair, including the one not made -/
+/-- every repair -/
 def Fixes.all : Fixes := ⟨true, true, true, true, true⟩
 
-/-- the tree as repaired: the four committed repairs; dynamic variables still cross the sandbox boundary -/
-def Fixes.tree : Fixes := ⟨true, true, true, true, false⟩
+/-- the tree as repaired -/
+def Fixes.tree : Fixes := Fixes.all
 
-/-- the four committed repairs are in force -/
+/-- the tree before the last repair: dynamic variables cross the sandbox boundary -/
+def Fixes.beforeDynBarrier : Fixes := { Fixes.all with dynBarrier := false }
+
+/-- the four repairs that close the routes to the full library are in force -/
 def Fixes.core (fx : Fixes) : Prop :=
   fx.macroLib = true ∧ fx.importLib = true ∧ fx.importReject = true ∧ fx.valueEmpty = true
 
@@ -156,6 +163,24 @@ structure World where
   fs : List (String × File)
   fixes : Fixes
   strTotal : List String := []   -- final names of pure natives that accept any string argument
+
+/-- the files named by import syntax that compiling this expression resolves (quotations are compiled
+later, by //eval.*, where import syntax is rejected; resolved imports are not resolved again) -/
+def Ast.imports : Ast → List String
+  | .imp f => [f]
+  | .lam _ b => b.imports
+  | .app f a => f.imports ++ a.imports
+  | .letE _ v b => v.imports ++ b.imports
+  | .tcons _ v r => v.imports ++ r.imports
+  | .dot e _ => e.imports
+  | .mac f => f.imports
+  | _ => []
+
+/-- the files named by import syntax inside the .arrai files of a file system -/
+def fsImports : List (String × File) → List String
+  | [] => []
+  | (_, .code a) :: r => a.imports ++ fsImports r
+  | (_, .bytes) :: r => fsImports r
 
 def lookupFile : List (String × File) → String → Option File
   | [], _ => none
@@ -179,19 +204,21 @@ structure EvalConfig where
   scopes : Val
 
 abbrev Res := Option Val × List Eff
-abbrev CRes := Option Ast × List Eff
+/-- result of compiling: the compiled expression and the parse-time scope after it (the parser's stack of
+`let` bindings only grows) -/
+abbrev CRes := Option (Ast × Val) × List Eff
 
 def Res.bind (r : Res) (f : Val → Res) : Res :=
   match r with
   | (none, l) => (none, l)
   | (some v, l) => let r' := f v; (r'.1, l ++ r'.2)
 
-def CRes.bind (r : CRes) (f : Ast → CRes) : CRes :=
+def CRes.bind (r : CRes) (f : Ast → Val → CRes) : CRes :=
   match r with
   | (none, l) => (none, l)
-  | (some v, l) => let r' := f v; (r'.1, l ++ r'.2)
+  | (some v, l) => let r' := f v.1 v.2; (r'.1, l ++ r'.2)
 
-def CRes.map (r : CRes) (f : Ast → Ast) : CRes := (r.1.map f, r.2)
+def CRes.map (r : CRes) (f : Ast → Ast) : CRes := (r.1.map fun x => (f x.1, x.2), r.2)
 
 /-- run a value computation inside a compilation -/
 def Res.bindC (r : Res) (f : Val → CRes) : CRes :=
